@@ -8,7 +8,7 @@ From LZ4V Require Import Gen.Consts Spec.BlockSpec Spec.FrameSpec Model.FrameCSi
 From LZ4V Require Import Proofs.FileProofs Proofs.FileInstProofs.
 From LZ4V Require Import Proofs.FileDecInst Proofs.FileCompInst.
 From LZ4V Require Model.FrameC Proofs.FrameCTheorems.
-From LZ4V Require Import Proofs.BlkInst Proofs.BlkFrameInst Proofs.BlkInstLinked.
+From LZ4V Require Import Proofs.BlkInst Proofs.BlkFrameInst Proofs.BlkInstFastLinked.
 Import ListNotations.
 
 Theorem roundtrip_indep_unconditional : forall sf sm sh, states_ok sf sm sh ->
@@ -26,7 +26,7 @@ Proof.
   exact (roundtrip_discharged (blk_indep 0 sf sm sh) (indep_contract 0 sf sm sh Hst) (blk_indep_bytes 0 sf sm sh) (Some p) mw bufs sizes junk).
 Qed.
 
-(* any block mode (lz4file.c's default preferences are LINKED blocks): LZ4_compress_fast_continue, Proofs.BlkInstLinked *)
+(* any block mode (lz4file.c's default preferences are LINKED blocks): LZ4_compress_fast_continue, Proofs.BlkInstFastLinked *)
 Theorem roundtrip_stream_unconditional : forall st, (forall n, lorc_ok (st n)) ->
   forall (po : option prefs) (mw : nat) (bufs : list (list byte)) (sizes : list nat) (junk : list byte),
     maxWrite_of po = Some mw -> FileProofs.csize_ok po (concat bufs) -> prefs_wf po ->
